@@ -180,7 +180,7 @@ def add_coordinates(job, g, profile, force_res=None):
             if not (np.all(cc >= 0.0) and np.all(cc <= np.array(gro["box"][:3]) - 1e-3)):
                 return False
     mode = g.choice(profile.get("coord_modes", ["full", "prefix", "prefix", "meta_full", "meta_prefix", "res", "res_prefix",
-                                                "ign", "ign"]))
+                                                "ign", "ign", "meta_res", "meta_res_prefix"]))
     kind = "meta" if mode.startswith("meta") else "mol"
     nres = len(residues)
     cut = nres
@@ -202,7 +202,7 @@ def add_coordinates(job, g, profile, force_res=None):
             cut = g.randint(lo, nres) if g.random() < 0.7 else nres
             if cut == nres and g.random() < 0.8 and lo < nres:
                 cut = g.randint(lo, nres - 1)
-    if mode.startswith("res"):
+    if "res" in mode.split("_"):
         names = sorted({r[2] for r in residues if r[4] not in ignore})
         res_names = g.sample(names, g.randint(1, min(2, len(names))))
         if force_res:
@@ -408,3 +408,25 @@ def make_interior_kept(job, g):
     ok = add_coordinates(job, g, {"coord_modes": ["res"]}, force_res=[a])
     job["interior_kept"] = ok
     return ok
+
+
+def add_pre_spec(job, g):
+    """an earlier call in the same process over a slightly different topology written to the SAME file names
+    (an included .itp regenerated between two runs)"""
+    import copy
+    spec = job["spec"]
+    alt = copy.deepcopy(spec)
+    alt["split_files"] = spec["split_files"] = True
+    if len(spec["moltypes"]) < 2:
+        return False
+    mt = alt["moltypes"][-1]
+    if mt["shape"] in ("linear",) and len(mt["residues"]) >= 3:
+        k = len(mt["residues"]) - 1
+        mt["residues"] = mt["residues"][:k]
+        mt["edges"] = [e for e in mt["edges"] if max(e) < k]
+    else:
+        names = sorted(spec["restypes"])
+        mt.update({"shape": "linear", "residues": [names[0]] * 3, "edges": [[0, 1], [1, 2]]})
+        mt.pop("residue_override", None)
+    job["pre_spec"] = alt
+    return True
